@@ -163,6 +163,9 @@ def run(repo, rep, tier):
     from . import c08 as _c08
     L.borrow(repo, rep, "R01.4", "C08", _c08._whitespace, ("last-text",))
     L.borrow(repo, rep, "R01.5", "C07", c07._defaults, ("html-defaults",))
+    # the keys of an attribute dictionary are written as given (C02 owns the
+    # routing of dictionary entries)
+    L.borrow(repo, rep, "R01.5", "C02", c02._routing, ("dict-operand",))
     L.state_rule(repo, rep)
 
 
@@ -996,6 +999,11 @@ def _cache_scope(repo, rep, func, res, steps):
         if isinstance(w, A.NodeV) and w.kind == "BinOp":
             cmp_ops.append(A.show(w.arg("op", ("left", "op", "right")),
                                   limit=3))
+    rep.check(set(cmp_ops) <= {"nodes.Equals", "nodes.Is", "nodes.IsNot"},
+              "R01.6", site, "a case is met by equality with the switch "
+              "value (or by the default marker) and by nothing else: no "
+              "membership, ordering or pattern test", construct="case-only-"
+              "equality", where=L.where(func), detail=str(sorted(set(cmp_ops))))
     rep.check("nodes.Equals" in cmp_ops, "R01.6", site, "tal:case compares "
               "its value with the switch value for equality",
               construct="case-equals", where=L.where(func),
